@@ -6,7 +6,9 @@ import (
 	"bytes"
 	"encoding/json"
 	"fmt"
+	"github.com/emitter-io/emitter/internal/security/hash"
 	"math/rand"
+	"os"
 	"sort"
 	"strings"
 	"sync"
@@ -464,11 +466,25 @@ func Replay(mode string, licVer int, storage string, walk []json.RawMessage, lab
 
 // ReplayN executes one behaviour on nb brokers (clients placed as Session!StdHome says); see cluster.go.
 func ReplayN(nb int, surveyed bool, mode string, licVer int, storage string, walk []json.RawMessage, label string, rng *rand.Rand) (*core.Trace, error) {
-	f, err := newFabric(nb, mode, licVer, storage, surveyed)
+	// a behaviour in which the broker restarts runs on the disk-backed store (in its own directory, kept across the restart)
+	restartDir := ""
+	for _, raw := range walk {
+		if bytes.Contains(raw, []byte(`"n":"restart"`)) {
+			storage = "ssd"
+			d, err := os.MkdirTemp("", "vrestart-")
+			if err != nil {
+				return nil, err
+			}
+			restartDir = d
+			defer os.RemoveAll(d)
+			break
+		}
+	}
+	f, err := newFabricDir(nb, mode, licVer, storage, surveyed, restartDir)
 	if err != nil {
 		return nil, fmt.Errorf("broker: %v", err)
 	}
-	defer f.close()
+	defer func() { f.close() }()
 	b := f.bs["b1"]
 	w := &world{b: b, f: f, nb: nb, clients: map[string]*bk.Client{}, byID: map[string]string{}, names: []string{"c1", "c2", "c3"}}
 	if w.keys, err = mintKeys(b); err != nil {
@@ -490,7 +506,7 @@ func ReplayN(nb int, surveyed bool, mode string, licVer int, storage string, wal
 		ev["e"] = a.N
 		delete(ev, "n")
 		c := w.clients[a.C]
-		if a.N != "connect" && a.N != "cluster" && (c == nil || c.Closed) {
+		if a.N != "connect" && a.N != "cluster" && a.N != "restart" && (c == nil || c.Closed) {
 			if closedByHostile[a.C] {
 				break // the generator assumed the connection survives its hostile request; the broker closed it (allowed): the behaviour ends here
 			}
@@ -581,6 +597,17 @@ func ReplayN(nb int, surveyed bool, mode string, licVer int, storage string, wal
 			}
 			c.Closed = true
 			c.C.Close()
+		case "restart":
+			// stop the broker (every connection has ended), start a new one on the same directory
+			f.close()
+			nf, err := newFabricDir(nb, mode, licVer, storage, surveyed, restartDir)
+			if err != nil {
+				// "the store always reopens": a broker that cannot start on its own directory is a verdict of C15, not of this step
+				return nil, fmt.Errorf("restart: %v", err)
+			}
+			f = nf
+			b = f.bs["b1"]
+			w.b, w.f = b, f
 		case "cluster":
 			ev["panic"] = clusterHostile(b, a.Fn, a.Idx, ev)
 		case "hostile":
@@ -617,12 +644,42 @@ func ReplayN(nb int, surveyed bool, mode string, licVer int, storage string, wal
 		if f.multi() {
 			ev["routes"] = f.routes(b.Lic.Contract())
 		}
+		if storage != "noop" && (a.N == "pub" || a.N == "end" || a.N == "restart") {
+			ev["stored"] = w.storedMessages()
+		}
 		tr.Events = append(tr.Events, core.Ev(ev))
 		if EventSink != nil {
 			EventSink(label, tr.Events[len(tr.Events)-1])
 		}
 	}
 	return tr, nil
+}
+
+// storedMessages reads every broker's message store back through its own query interface: [channel words, payload, ttl].
+func (w *world) storedMessages() map[string][][]any {
+	out := map[string][][]any{}
+	for _, bn := range w.f.names {
+		b := w.f.bs[bn]
+		seen := map[string]bool{}
+		list := [][]any{}
+		for _, first := range []string{"a", "b", "x", "y", "cut", "hostile"} {
+			ssid := message.NewSsid(b.Lic.Contract(), []uint32{hash.OfString(first)})
+			fr, err := b.Svc.VerifStorage().Query(ssid, time.Unix(0, 0), time.Unix(0, 0), nil, 10000)
+			if err != nil {
+				continue
+			}
+			for _, m := range fr {
+				if seen[string(m.ID)] {
+					continue
+				}
+				seen[string(m.ID)] = true
+				list = append(list, []any{w.words(string(m.Channel)), string(m.Payload), m.TTL})
+			}
+		}
+		sort.Slice(list, func(i, j int) bool { return fmt.Sprint(list[i]) < fmt.Sprint(list[j]) })
+		out[bn] = list
+	}
+	return out
 }
 
 // ---------------------------------------------------------------------------------------------
